@@ -249,6 +249,78 @@ def rwa_bookkeeping(cx, N, blocks):
                 cx.prove_eq("phase[%d,%d,%d]" % (i, a, b), pr.data[i, a, b], ph * stored[i, a, b], tol=1e-7)
 
 
+F_SVE = "quantarhei/qm/propagators/statevectorevolution.py"
+
+
+@harness("C02", "statevector_views",
+         quick=[dict(N=2, rwa=False), dict(N=3, rwa=True)],
+         thorough=[dict(N=n, rwa=r) for n in (2, 3) for r in (False, True)] + [dict(N=4, rwa=True, blocks=[0, 1, 3])],
+         functions=[F_SVE + ":StateVectorEvolution.get_DensityMatrixEvolution",
+                    F_SVE + ":StateVectorEvolution.convert_from_RWA", F_SVE + ":StateVectorEvolution.convert_to_RWA",
+                    "quantarhei/qm/propagators/svpropagator.py:StateVectorPropagator.propagate"],
+         bound="N<=3 (thorough 4), 3 stored times, order 2; H real symmetric, psi0 complex (arbitrary relative "
+               "phases): the density-matrix evolution derived from a state-vector evolution is |psi_i><psi_i| at "
+               "EVERY stored index; for a Hamiltonian with RWA information the propagator uses H - Omega, flags the "
+               "result, and convert_from_RWA multiplies component a at stored index i by exp(-i Omega_a t_i) "
+               "(convert_to_RWA undoes it)",
+         out="equality of rotating-frame and laboratory-frame dynamics beyond the bookkeeping (truncation error)")
+def statevector_views(cx, N, rwa, blocks=None):
+    import quantarhei as qr
+    from quantarhei.qm.propagators.svpropagator import StateVectorPropagator
+    with cx.concrete():
+        time = qr.TimeAxis(0.0, 3, 1.0)
+        ham = qr.Hamiltonian(data=numpy.diag(numpy.arange(N, dtype=float)))
+        psii = qr.StateVector(N)
+    H = cx.real_symmetric("H", N)
+    ham._data = H
+    blocks = blocks or [0, 1]
+    om = [0] * N
+    if rwa:
+        ham.set_rwa(blocks)
+        bounds = list(blocks) + [N]
+        for b in range(len(blocks)):
+            idx = list(range(bounds[b], bounds[b + 1]))
+            avg = sum(H[i, i] for i in idx) / len(idx)
+            for i in idx:
+                om[i] = avg
+    psi0 = cx.cplx_array("psi", N)
+    psii._data = psi0.copy()
+    prop = StateVectorPropagator(time, ham)
+    pr = prop.propagate(psii, L=2)
+    stored = pr.data.copy()
+    # the generator actually used
+    Heff = H - numpy.diag(numpy.array(om, dtype=object if cx.sym else float)) if rwa else H
+    gen = lambda v: -1j * numpy.dot(Heff, v)
+    ref = psi0
+    for i in range(1, 3):
+        ref = taylor(gen, ref, time.step, 2)
+        cx.prove_eq("propagated_with_rwa_hamiltonian[%d]" % i if rwa else "propagated[%d]" % i, stored[i], ref)
+    # density-matrix view
+    try:
+        dme = pr.get_DensityMatrixEvolution()
+    except Exception as e:      # noqa: BLE001
+        cx.fail("density_matrix_view", "%s: %s" % (type(e).__name__, str(e)[:100]))
+        return
+    for i in range(3):
+        outer = numpy.outer(stored[i], numpy.conj(stored[i]))
+        cx.prove_eq("density_matrix_view[%d]" % i, dme.data[i], outer, tol=1e-9)
+    if not rwa:
+        return
+    cx.prove("flagged_in_rwa", getattr(pr, "is_in_rwa", None) is True)
+    try:
+        pr.convert_from_RWA(ham)
+    except Exception as e:      # noqa: BLE001
+        cx.fail("converted_from_rwa", "%s: %s" % (type(e).__name__, str(e)[:100]))
+        return
+    cx.prove("flag_cleared", pr.is_in_rwa is False)
+    for i, t in enumerate(time.data):
+        for a in range(N):
+            ph = numpy.exp(-1j * om[a] * t)
+            cx.prove_eq("converted_from_rwa[%d,%d]" % (i, a), pr.data[i, a], ph * stored[i, a], tol=1e-7)
+    pr.convert_to_RWA(ham)
+    cx.prove_eq("back_to_rwa", pr.data, stored, tol=1e-7)
+
+
 @harness("C02", "pure_dephasing",
          quick=[dict(N=2, dtype="Lorentzian"), dict(N=2, dtype="Gaussian"), dict(N=2, dtype="Lorentzian", Nref=2),
                 dict(N=2, dtype="Gaussian", Nref=2, form="operators")],
